@@ -27,6 +27,7 @@ from . import sites as S
 
 LEVEL = "proof"
 BORDERS = [0.05, 0.2, 0.6, 1.0]  # areas [0.05,0.2], [0.2,0.6], [0.6,1.0]
+SHORT = [0.05, 0.2, 0.6]  # a basis function whose support ends below 1 (every one but the last few)
 
 
 class Basis:
@@ -132,10 +133,10 @@ def sec_convolution(rep):
         for has_sing in (False, True):
             for has_loc in (False, True):
                 for mode_log in (True, False):
-                    for below in (False, True):
+                    for below, BORDERS in ((False, globals()["BORDERS"]), (True, globals()["BORDERS"]), (False, SHORT), (True, SHORT)):
                         rep.cases += 1
 
-                        def case(sy, has_reg=has_reg, has_sing=has_sing, has_loc=has_loc, mode_log=mode_log, below=below):
+                        def case(sy, has_reg=has_reg, has_sing=has_sing, has_loc=has_loc, mode_log=mode_log, below=below, BORDERS=BORDERS):
                             regf = (lambda z, a: sy.U("reg", z, a[0])) if has_reg else None
                             singf = (lambda z, a: sy.U("sing", z, a[0])) if has_sing else None
                             locf = (lambda x_, a: sy.U("loc", x_, a[0])) if has_loc else None
@@ -147,7 +148,7 @@ def sec_convolution(rep):
 
                             with rebind(*([] if sy.is_numeric else np_shim_for(pcmod, conv)), (conv, "scipy", _SI), (conv, "interpolation", EkoStub(sy, elog))):
                                 rsl = RSL(regf, singf, locf, args={"reg": [sy.ar], "sing": [sy.as_], "loc": [sy.al]})
-                                bf = Basis(sy, 2, mode_log, below)
+                                bf = Basis(sy, 2, mode_log, below, borders=BORDERS)
                                 res, err = conv.convolution(rsl, sy.x, bf)
                                 out = []
                                 empty = below or bool(sy.x >= 1 - eps)
@@ -186,7 +187,9 @@ def sec_convolution(rep):
                                 out.append(("evaluator matches the interpolation mode", sorted(set(elog)), ["log"] if mode_log else ["lin"]))
                                 return out
 
-                        rep.check(f"C01/convolution/post/reg={has_reg},sing={has_sing},loc={has_loc}/log={mode_log}/below={below}", case, sy, pre, max_paths=64)
+                        # the stub answers is_below_x by a flag: keep it consistent with the support it declares
+                        sup = [sy.x >= BORDERS[-1]] if (below and BORDERS[-1] < 1) else ([sy.x < BORDERS[-1]] if BORDERS[-1] < 1 else [])
+                        rep.check(f"C01/convolution/post/reg={has_reg},sing={has_sing},loc={has_loc}/log={mode_log}/below={below}" + ("" if BORDERS[-1] == 1.0 else f"/support-ends-at-{BORDERS[-1]}"), case, sy, pre + sup, max_paths=64)
     rep.sample({"convolution": "reg+sing+loc, log mode: res == QUAD(ker, x(1+eps), min(max_i x/b_i,1)(1-eps), points={x/b_i}) + p_j(x) loc(x) with ker(z) == reg(z) p_j(x/z)/z + sing(z)(p_j(x/z)/z - p_j(x)) -- the integrand is obtained by calling the captured quad_ker with the captured quad_args on a symbolic z"})
 
 
